@@ -205,7 +205,14 @@ def canon_own_stmt(t):
 	tag, body = t
 	blk = lambda b: tuple(canon_own_stmt(s) for s in b[1])
 	if tag == 'move':
-		return ('assign', canon_own(body[0]), canon_own(body[1]))
+		# move_target is unwrapped into the statement: [name, value] | [primary, name, value] (attribute) | [primary, key, value] (subscript)
+		if len(body) == 2:
+			return ('assign', canon_own(body[0]), canon_own(body[1]))
+		if len(body) == 3 and body[1][0] == 'name':
+			return ('assign', ('attr', canon_own(body[0]), body[1][1]), canon_own(body[2]))
+		if len(body) == 3:
+			return ('assign', ('index', canon_own(body[0]), canon_own(body[1])), canon_own(body[2]))
+		return ('assign', ('other', 'move', len(body)))
 	if tag == 'return':
 		return ('return', None if body[0][0] == '__empty__' else canon_own(body[0]))
 	if tag == 'raise':
@@ -376,11 +383,13 @@ def run(ctx: Ctx) -> int:
 	side = ThreadPoolExecutor(max_workers=1)
 	engine_job = side.submit(engine_binding.run, ['GramEngine_1', 'GramEngine_2'] if quick else ['GramEngine_1', 'GramEngine_2', 'GramEngine_3'])
 	cases = []
+	assign_cases = []
 	for n in ([1, 2] if quick else [1, 2, 3]):
 		res = tlc.run('OwnGramEmit', f'OwnGram_{n}.cfg', workers=1, timeout=2400)
 		if res.rc != 0:
 			raise Machinery(f'OwnGram: evaluation error: {res.out[-600:]}')
 		cases += [json.loads(line) for line in res.lines('CASE ')]
+		assign_cases += [{'text': c['text'], 'want': (tup(c['canon']),), 'top': c['top']} for c in map(json.loads, res.lines('ASSIGN '))]
 	stmts, _ = srcmodel.load_stmt_cases()
 	stmt_cases = []
 	outside = []  # Python that py_gram does not derive: to be rejected (an accepted one cannot have CPython's tree)
@@ -393,6 +402,7 @@ def run(ctx: Ctx) -> int:
 		stmt_cases.append({'text': text, 'want': tuple(canon_py_stmt(s) for s in tree.body), 'top': c['canon']['k'], 'model': c['canon']})
 	if quick:
 		stmt_cases = stmt_cases[::2]
+	stmt_cases += assign_cases
 	for nops in (1, 2):
 		exprs, _ = srcmodel.load_cases(nops)
 		outside += [{'text': f'x = {c["text"]}'} for c in exprs if any(op in c['text'] for op in ('|', '&', '^', '<<', '>>', '~', '+ +', '- -'))]
